@@ -19,3 +19,4 @@ open Just.Props.C04
 #print axioms stem_is_name_without_extension
 #print axioms without_extension_and_join
 #print axioms scanners_agree
+#print axioms encode_uri_component_roundtrip
